@@ -142,7 +142,7 @@ def run_models(drv, tier, seed, ev) -> tuple[dict, list]:
     for m in drv.models(tier, seed):
         name = m.pop('name', m['spec'])
         expect = m.pop('expect_violation', None)
-        r = tlc.run_tlc(**m)
+        r = tlc.run_apalache(**m) if m.pop('tool', 'tlc') == 'apalache' else tlc.run_tlc(**m)
         rec = {'name': name, 'cmd': r.cmd, 'generated': r.generated, 'distinct': r.distinct,
                'depth': r.depth, 'wall_s': round(r.wall, 2), 'violated': r.violated}
         if r.coverage:
@@ -159,7 +159,7 @@ def run_models(drv, tier, seed, ev) -> tuple[dict, list]:
             if r.violated is None:
                 raise MachineryError(
                     f'sharpness self-test {name}: TLC found no violation of {expect}')
-            rec['sharpness_selftest'] = f'TLC found the expected violation of {r.violated}'
+            rec['sharpness_selftest'] = f'the model checker found the expected violation of {r.violated}'
         elif r.violated:
             violations.append({'kind': 'model', 'model': name, 'violated': r.violated,
                                'tlc_tail': r.out[-4000:]})
